@@ -1,0 +1,21 @@
+//go:build verif
+
+package godi
+
+// VerifHook, when set (before any container is used), receives every
+// verification hook point: gate=true points are scheduling points placed
+// outside any lock (the hook may block); gate=false points are events emitted
+// after a state change (the hook must not block).
+var VerifHook func(gate bool, point string, args ...any)
+
+func verifGate(point string, args ...any) {
+	if h := VerifHook; h != nil {
+		h(true, point, args...)
+	}
+}
+
+func verifEvent(point string, args ...any) {
+	if h := VerifHook; h != nil {
+		h(false, point, args...)
+	}
+}
